@@ -538,16 +538,17 @@ class RelativeJSONPointer:
         else:
             index = 0
 
-        # Pointer or '#'. Empty string is OK.
-        _pointer = match.group("POINTER").strip()
+        # Pointer or '#'. Empty string is OK. Blank space at the end of a
+        # pointer belongs to its last reference token.
+        _pointer = match.group("POINTER").lstrip()
         pointer = (
             JSONPointer(
                 _pointer,
                 unicode_escape=unicode_escape,
                 uri_decode=uri_decode,
             )
-            if _pointer != "#"
-            else _pointer
+            if _pointer.rstrip() != "#"
+            else "#"
         )
 
         return (origin, index, pointer)
